@@ -100,7 +100,10 @@ fn main() -> Result<(), Box<dyn std::error::Error>> {
         for i in 0..=ref_boundaries.len() {
             ref_tags.push(s.tags()[i * s.n_tags()..(i + 1) * s.n_tags()].to_vec());
         }
-        if !args.no_norm {
+        if args.no_norm {
+            // Only predicted tags must be compared with the reference.
+            s.reset_tags(0);
+        } else {
             let new_line = fullwidth_filter.filter(s.as_raw_text());
             s = Sentence::from_raw(new_line)?
         };
